@@ -1,0 +1,10 @@
+//go:build !verif
+
+package crypto
+
+import "github.com/relab/hotstuff"
+
+// verifBatchIDs is nil in normal builds: BatchVerify then takes the (key, message) pairs in the order
+// in which Go ranges over the batch. With the verif build tag it returns the IDs in ascending order, so
+// that a deterministic simulator pairs them in the same order in every run (see verif_on.go).
+func verifBatchIDs(_ map[hotstuff.ID][]byte) []hotstuff.ID { return nil }
